@@ -132,6 +132,11 @@ def judge_processor(paths: List[Path], site: Site, kind: str, j: Judged, loop_ok
                 j.u("children not recognised on the non-extensible path")
             continue
         # extensible
+        if not prefix:
+            bypass = [e for _, e in tops if e.kind == "call" and e.name != site.base and any(scratch(site, a) is not None for a in e.args)]
+            if bypass:
+                j.v("prefix-bypass", f"the 16-bit prefix is moved by `{bypass[0].name}` directly instead of through `{site.base}`: it skips what the base-type primitive does for every value (cursor advance, and on a big-endian build the byte-order staging)", construct=repr(bypass[0]), witness="an extensible array on a big-endian build: the prefix is written in host byte order")
+                continue
         if len(prefix) != 1:
             j.v("prefix-calls", f"an extensible item processes {len(prefix)} prefixes on the path under {p.guard_text()} (expected exactly one)", witness="encode writes no prefix / decode reads none")
             continue
